@@ -45,8 +45,57 @@ void vf_harness(void)
                 canaries=[{"fn": "Cov%s::_evaluateCov" % name, "rx": r"(\d)\.(\d*)", "rp": r"\g<1>.\g<2>1", "count": 1, "expect": r"assertion"}] if name != "Triangle" else [])
 
 
+# non-polynomial structures: published closed form with the libm functions as UNINTERPRETED functions (exp, pow, sin, cos are trusted; what is
+# decided is which function is applied to which argument, the cut-offs and the special case at the origin)
+CLOSED = {
+    "Exponential": "(h > 100.) ? 0. : exp(-h)",                       # exp(-h); below 1e-43 beyond h = MAX_EXP = 100
+    "Gaussian": "(h * h > 100.) ? 0. : exp(-(h * h))",               # exp(-h^2)
+    "Stable": "(h > 0) ? exp(-pow(h, P)) : 1.",                     # exp(-h^alpha)
+    "Cauchy": "1. / pow(1. + h * h, P)",                            # (1 + h^2)^-alpha
+    "Gamma": "1. / pow(1. + h, P)",                                 # (1 + h)^-alpha
+    "Sincard": "(h > 1.e-5) ? sin(h) / h : 1.",                     # sin(h)/h
+    "Cosinus": "cos(2. * GV_PI * h)",
+    "Storkey": "(h < 1) ? (2. * (1. - h) * (1. + cos(2. * GV_PI * h) / 2.) + 3 / (2. * GV_PI) * sin(2. * GV_PI * h)) / 3. : 0.",
+}
+LIBM = """
+#define GV_PI  3.14159265358979323846264338328
+#define MAX_EXP     100
+double __CPROVER_uninterpreted_exp(double); double __CPROVER_uninterpreted_pow(double, double); double __CPROVER_uninterpreted_sin(double); double __CPROVER_uninterpreted_cos(double);
+static double exp(double x) { return __CPROVER_uninterpreted_exp(x); }
+static double pow(double x, double y) { return __CPROVER_uninterpreted_pow(x, y); }
+static double sin(double x) { return __CPROVER_uninterpreted_sin(x); }
+static double cos(double x) { return __CPROVER_uninterpreted_cos(x); }
+#define getParam() (W_param)
+#define P (W_param)
+#define SAMED(x, y) ((x) == (y) || ((x) != (x) && (y) != (y)))
+"""
+
+
+def unit_closed(name):
+    f = Fn("Cov%s::_evaluateCov" % name, "src/Covariances/Cov%s.cpp" % name, r"^double Cov%s::_evaluateCov\(double h\) const\s*$" % name,
+           csig="double Cov_evaluateCov(double h)")
+    h = """
+static double published(double h) { return %s; }
+void vf_harness(void)
+{
+  vf_havoc_inputs();
+  __CPROVER_assume(W_h >= 0.);                                     /* a normalised distance */
+  double c = Cov_evaluateCov(W_h), p = published(W_h);
+  __CPROVER_assert(SAMED(c, p), "equals the published closed form for every distance and parameter (libm functions uninterpreted)");
+  VF_REACH();
+}
+""" % CLOSED[name]
+    return Unit("C03.Cov%s" % name, [f], prelude=LIBM, harness=h, inputs=[("double", "W_h"), ("double", "W_param")], unwind=2,
+                checks=[], backends=("cvc5", "minisat"), timeout=300,
+                claim=("Cov%s::_evaluateCov equals the published closed form for every non-negative normalised distance and every parameter value, exp / pow / sin / cos "
+                       "being uninterpreted functions: which function is applied to which argument, the cut-off and the value at the origin" % name),
+                assumptions=["libm functions trusted (uninterpreted); the published form is the expression in specs/C03.py CLOSED"],
+                canaries=[{"fn": "Cov%s::_evaluateCov" % name, "rx": r"\* h\)" if name == "Cosinus" else r"\bh\b(?!\))", "rp": "* (h + 1.))" if name == "Cosinus" else "(h + 1.)",
+                           "count": 1, "expect": r"assertion"}])
+
+
 def units(tier):
-    return [unit_struct(n) for n in STRUCTS]
+    return [unit_struct(n) for n in STRUCTS] + [unit_closed(n) for n in CLOSED]
 
 
 META = {
@@ -55,12 +104,12 @@ META = {
                     "degree+1 points. Positive-definiteness itself — the heart of C03 — is not decidable with contracts."),
     "trusted_base": ["CBMC 6.11 floating-point arithmetic"],
     "assumptions": [],
-    "not_covered": ["positive (semi-)definiteness of covariance matrices", "|C(h)| <= C(0)", "anisotropy / rotation of the distance", "variogram mode", "all non-polynomial structures",
+    "not_covered": ["positive (semi-)definiteness of covariance matrices", "|C(h)| <= C(0)", "anisotropy / rotation of the distance", "variogram mode", "Matern / Bessel / Power / Linear / spline structures (special functions, field-dependent constants)", "the practical-range constants (getScadef)",
                     "validity dimensions (getMaxNDim)", "CovPenta (support 2, negative values: no published reference at hand)"],
 }
 MANIFEST = {
     "category": "other",
-    "text": "Partial: compact support, C(0)=1 and agreement with the published polynomial for Spherical, Cubic, Triangle, Wendland0/1/2.",
+    "text": "Partial: compact support, C(0)=1 and agreement with the published polynomial for Spherical, Cubic, Triangle, Wendland0/1/2; equality with the published closed form (libm functions uninterpreted) for Exponential, Gaussian, Stable, Cauchy, Gamma, Sincard, Cosinus, Storkey.",
     "note": "Positive-definiteness N/A for this technique.",
     "design_ref": "DESIGN.md 3 C03",
 }
